@@ -69,7 +69,6 @@ pub fn execute(scn: &HwScn, ctx: &mut Ctx) {
     // per-call expectations
     let mut written_so_far: Vec<usize> = Vec::new();
     let mut clean_since_fin = false; // a successful finalize happened and nothing was written since
-    let mut rejected_since_fin = false;
     for m in &run.marks {
         if let CallRes::Panic(msg, loc) = &m.res {
             let prop = if m.call.starts_with("write-other") { "C10" } else { "C09" };
@@ -86,7 +85,6 @@ pub fn execute(scn: &HwScn, ctx: &mut Ctx) {
             if m.res != want {
                 ctx.fail("C10", "rejected-error", format!("{}", type_name(ty)), format!("history {}: write of a {} into a {} writer returned {}", pat, type_name(offered_ty), type_name(ty), m.res.short()));
             }
-            rejected_since_fin = true;
             if m.end_ev != m.first_ev {
                 ctx.fail("C10", "rejected-no-io", "events", format!("history {}: the rejected write issued {} device operations", pat, m.end_ev - m.first_ev));
             }
@@ -101,9 +99,6 @@ pub fn execute(scn: &HwScn, ctx: &mut Ctx) {
             // Drop runs finalize: with nothing new to commit it must not touch the devices either
             if clean_since_fin && m.end_ev != m.first_ev {
                 ctx.fail("C09", "idle-finalize-no-io", format!("{}:drop", hsite), format!("history {}: dropping a writer with nothing new to commit issued {} device operations", pat, m.end_ev - m.first_ev));
-                if rejected_since_fin {
-                    ctx.fail("C10", "rejected-changes-nothing", "dirty-after-rejected-write", format!("history {}: after finalize; rejected write(s); drop, the drop issued {} device operations", pat, m.end_ev - m.first_ev));
-                }
             }
         } else if m.call == "finalize" {
             if !m.res.is_ok() {
@@ -112,12 +107,8 @@ pub fn execute(scn: &HwScn, ctx: &mut Ctx) {
             }
             if clean_since_fin && m.end_ev != m.first_ev {
                 ctx.fail("C09", "idle-finalize-no-io", hsite, format!("history {}: finalize with nothing new to commit issued {} device operations", pat, m.end_ev - m.first_ev));
-                if rejected_since_fin {
-                    // C10 "changes nothing else": a rejected write must not make the writer believe it has something to commit
-                    ctx.fail("C10", "rejected-changes-nothing", "dirty-after-rejected-write", format!("history {}: after finalize; rejected write(s); finalize, the second finalize issued {} device operations", pat, m.end_ev - m.first_ev));
-                }
             }
-            rejected_since_fin = false;
+
             if !clean_since_fin {
                 ctx.stats.reach("finalize-with-work");
             } else {
@@ -202,8 +193,22 @@ pub fn execute(scn: &HwScn, ctx: &mut Ctx) {
     if !p.others.is_empty() && p.calls.iter().any(|c| matches!(c, WCall::Other(_))) {
         let stripped = WProg { calls: p.calls.iter().filter(|c| !matches!(c, WCall::Other(_))).cloned().collect(), others: vec![], ..p.clone() };
         let world_c = World::new(scn.wplan.clone());
-        let _ = run_writer(&world_c, &stripped);
+        let run_c = run_writer(&world_c, &stripped);
         ctx.stats.absorb_world(&world_c.borrow());
+        // "changes nothing else": every other call of the history causes exactly the device
+        // operations it causes in the history without the rejected calls
+        let sig = |w: &World, m: &Mark| -> Vec<(u8, u8, u64, u32)> { w.log[m.first_ev..m.end_ev].iter().map(|e| (e.dev, e.kind as u8, e.pos, e.moved)).collect() };
+        let a: Vec<&Mark> = run.marks.iter().filter(|m| !m.call.starts_with("write-other")).collect();
+        let c: Vec<&Mark> = run_c.marks.iter().collect();
+        if a.len() == c.len() {
+            let (wa, wc) = (world.borrow(), world_c.borrow());
+            for (ma, mc) in a.iter().zip(c.iter()) {
+                if sig(&wa, ma) != sig(&wc, mc) {
+                    ctx.fail("C10", "rejected-changes-nothing", "later-call-differs", format!("history {}: call '{}' issues {} device operations, but {} in the same history without the rejected writes", pat, ma.call, ma.end_ev - ma.first_ev, mc.end_ev - mc.first_ev));
+                    break;
+                }
+            }
+        }
         if shp != world_c.borrow().data(SHP) || (p.with_shx && shx != world_c.borrow().data(SHX)) {
             ctx.fail("C10", "same-as-without-rejected", type_name(ty), format!("history {}: final files differ from those of the history with the rejected writes removed", pat));
         }
